@@ -126,6 +126,9 @@ type result struct {
 	runErr   string
 	state    State
 	returned bool
+	// ignoredStop: a stopping event (termination signal that was enqueued, Shutdown(), context cancellation, asynchronous
+	// error that was accepted) had been delivered, nothing could run any more, and Run had not returned
+	ignoredStop string
 }
 
 // body builds one collector and applies the given event history from a second thread.
@@ -157,9 +160,18 @@ func c20body(hist []string, plan []string, res *result, prov **genProvider) func
 			ev("run returned state=%v err=%v", res.state, e != nil)
 			vs.Close(done)
 		})
+		// once the history has been issued and nothing can run any more, a delivered stopping event must have made Run return
+		// - BEFORE the harness's own final Shutdown()/cancel, which would hide an ignored one
+		stopIssued := ""
 		vs.GoNamed("events", func() {
 			for _, h := range append(append([]string{}, hist...), "final") {
 				vs.Point()
+				if h == "final" {
+					vs.AwaitQuiescence(func() bool { return res.returned })
+					if stopIssued != "" && !res.returned {
+						res.ignoredStop = stopIssued
+					}
+				}
 				switch h {
 				case "cfg", "cfgerr":
 					if gp.watcher == nil {
@@ -179,18 +191,25 @@ func c20body(hist []string, plan []string, res *result, prov **genProvider) func
 						sig = syscall.SIGTERM
 					}
 					ev("event %s", h)
-					vs.Deliver(sig) // os/signal delivery is a non-blocking send to every registered channel
+					// os/signal delivery is a non-blocking send to every registered channel
+					if n := vs.Deliver(sig); n > 0 && h == "term" {
+						stopIssued = "SIGTERM (enqueued in the collector's signal channel)"
+					}
 				case "shutdown":
 					// "Shutdown() calls from several goroutines": every shutdown event is its own caller, so that two of them (and
 					// the final one below) can overlap
 					ev("event shutdown()")
+					stopIssued = "Shutdown()"
 					vs.GoNamed("shutdown-caller", func() { col.Shutdown() })
 				case "ctx":
 					ev("event ctxCancel")
+					stopIssued = "context cancellation"
 					cancel()
 				case "async":
 					ev("event asyncErr")
-					vs.Select(false, vs.CaseSend(col.asyncErrorChannel, errors.New("fatal")), vs.CaseRecv(done))
+					if vs.Select(false, vs.CaseSend(col.asyncErrorChannel, errors.New("fatal")), vs.CaseRecv(done)) == 0 {
+						stopIssued = "asynchronous error (accepted by the run loop)"
+					}
 				case "final":
 					col.Shutdown()
 					vs.Point()
@@ -204,6 +223,9 @@ func c20body(hist []string, plan []string, res *result, prov **genProvider) func
 func checkLog(res result, gp *genProvider) string {
 	if !res.returned {
 		return "Run did not return"
+	}
+	if res.ignoredStop != "" {
+		return "Run did not return after " + res.ignoredStop + " although nothing else was left to do (it returned only after the harness's final Shutdown)"
 	}
 	live := map[string]bool{}   // started and not stopped: "kind gN"
 	created := map[int]bool{}   // generations with created components
